@@ -224,3 +224,9 @@ for _q in QUERIES:
     _all = [int(e.split(':')[1]) for e in _q['unwindset'] if ':' in e and not e.split(':')[0].endswith('main.0')] + ([_q['unwind']] if _q.get('unwind') else [])
     _b = max([v for v in _all if v <= 70] or [8])
     _q['unwindset'] = _q['unwindset'] + ['%s.%d:%d' % (f, i, _b) for f in ('vf_strcspn', 'vf_strspn', 'vf_memchr', 'vf_strstr') for i in range(3)]
+    if not any(e.startswith('vf_memcpy.') for e in _q['unwindset']):
+        _q['unwindset'].append('vf_memcpy.0:66')
+    if not any(e.startswith('vf_strcpy.') for e in _q['unwindset']):
+        _q['unwindset'].append('vf_strcpy.0:%d' % max(_b, 8))
+    # the separately linked cJSON.c carries its own copies of the models (goto-cc renames file-local clashes to <name>$link1)
+    _q['unwindset'] = _q['unwindset'] + [e.replace('.', '$link1.', 1) for e in _q['unwindset'] if e.startswith(('vf_memcpy.', 'vf_strcpy.', 'vf_strcspn.', 'vf_strspn.', 'vf_memchr.', 'vf_strstr.'))]
